@@ -31,9 +31,10 @@ ACT = {
 PROBES = {
     "C16": [("MCStaker_quickB.cfg", "NeverCooldownPaid"), ("MCStaker_quickB.cfg", "NeverDelegationWithdrawnAfterLock"),
             ("MCStaker_quick.cfg", "NeverRenewedWithDelegation")],
-    "C17": [("MCStaker_quick.cfg", "NeverEvicted"), ("MCStaker_quick.cfg", "NeverEmptied"),
-            ("MCStaker_quickB.cfg", "NeverOfflineAtEarlyCheck"), ("MCStaker_quickB.cfg", "NeverEvicted")],
+    # (emptying the leader group is shown reachable by the design-level F4 demonstration below)
+    "C17": [("MCStaker_quickB.cfg", "NeverOfflineAtEarlyCheck"), ("MCStaker_quickB.cfg", "NeverEvicted")],
 }
+SCRIPTED = ("f4", "edges", "exitmax")
 F4_SIGNATURE = "leader-group-emptied:exit-of-only-active-validator"
 WORKERS = 6
 
@@ -82,10 +83,11 @@ def model_check(ctx, prop):
 
 
 # --------------------------------------------------------------------------------------------------- recording
-def record(ctx, preset, mode, runs, blocks, seed, label):
+def record(ctx, preset, mode, runs, blocks, seed, label, extra=()):
     binp = ctx.build("stakersim")
     out = ctx.tmp("rec-" + label)
     argv = [binp, "-out", out, "-cfg", preset, "-mode", mode, "-runs", str(runs), "-blocks", str(blocks), "-seed", str(seed)]
+    argv += list(extra)
     rc, o = ctx.run(argv, timeout=1800)
     if rc == 3:
         raise Infra("stakersim harness error: " + o[-1500:])
@@ -94,7 +96,7 @@ def record(ctx, preset, mode, runs, blocks, seed, label):
         # a dying driver process is harness trouble (simulator set-up, out of memory, an index error of the driver)
         raise Infra("stakersim failed rc=%s: %s" % (rc, o[-2000:]))
     cfg = json.load(open(os.path.join(out, "config.json")))
-    cfg["strict"] = "chain" not in mode         # receipts of real transactions do not carry the revert reason
+    cfg["strict"] = "chain" not in mode         # (chain, chainpoa) receipts of real transactions do not carry the revert reason
     return {"dir": out, "trace": os.path.join(out, "trace.ndjson"), "argv": argv[1:],
             "stats": json.load(open(os.path.join(out, "runs.json"))), "config": cfg}
 
@@ -340,7 +342,7 @@ def validate_recording(ctx, prop, rec, label):
 def nontrivial(prop, s):
     if prop == "C16":
         return s["activations"] > 0 and s["exits"] > 0 and s["nonzeroWithdrawals"] > 0 and s["delegations"] > 0
-    return s["activations"] > 0 and s["exits"] > 0 and (s["housekeepingUpdates"] >= 3 or s["mode"] == "chain")
+    return s["activations"] > 0 and s["exits"] > 0 and (s["housekeepingUpdates"] >= 3 or s["mode"].startswith("chain"))
 
 
 RULE = {
@@ -353,26 +355,36 @@ RULE = {
 }
 
 
-def histories(ctx, prop, plan):
-    """plan: list of (preset, mode, runs, blocks, seed_offset).  Records, validates, fills the evidence."""
-    all_stats, accepted = [], 0
+def histories(ctx, prop, plan, more_stats=()):
+    """plan: list of (preset, modes, blocks, seed_offset); modes = list of scripted mode names and (seeded mode, count).
+    Records, validates (two TLC runs at a time), fills the evidence."""
+    from concurrent.futures import ThreadPoolExecutor
+    all_stats, accepted = list(more_stats), 0
     # one TLC run per recording: keep recordings at <= 40 seeded histories (about 10^4 events, 30 MB of ndjson)
     chunks = []
-    for preset, mode, runs, blocks, off in plan:
+    for preset, modes, blocks, off in plan:
+        scripted = [m for m in modes if isinstance(m, str)]
+        todo = [[m, n] for m, n in (x for x in modes if not isinstance(x, str))]
         k = 0
-        while runs > 0:
-            n = min(runs, 40)
-            scripted = [m for m in mode.split(",") if m in ("f4", "edges")] if k == 0 else []
-            seeded = [m for m in mode.split(",") if m not in ("f4", "edges")]
-            chunks.append((preset, ",".join(scripted + seeded), n, blocks, ctx.seed * 101 + off + 1000 * k, k))
-            runs -= n
+        while scripted or any(n > 0 for _, n in todo):
+            room, part = 40, list(scripted)
+            scripted = []
+            for item in todo:
+                take = min(item[1], room)
+                if take > 0:
+                    part.append("%s:%d" % (item[0], take))
+                    item[1] -= take
+                    room -= take
+            chunks.append((preset, ",".join(part), blocks, ctx.seed * 101 + off + 1000 * k, k))
             k += 1
-    for preset, mode, runs, blocks, seed, k in chunks:
-        label = "%s-%s%s" % (preset, mode.replace(",", "+"), "-%d" % k if k else "")
-        rec = record(ctx, preset, mode, runs, blocks, seed, label)
-        if rec is None:
-            continue
-        hists, verdict = validate_recording(ctx, prop, rec, label)
+    recs = []
+    for preset, mode, blocks, seed, k in chunks:
+        label = "%s-%s%s" % (preset, re.sub(r"[:,]", "+", mode)[:40], "-%d" % k if k else "")
+        rec = record(ctx, preset, mode, 0, blocks, seed, label)
+        recs.append((preset, label, rec))
+    with ThreadPoolExecutor(max_workers=2) as pool:
+        results = list(pool.map(lambda x: validate_recording(ctx, prop, x[2], x[1]), recs))
+    for (preset, label, rec), (hists, verdict) in zip(recs, results):
         ok = [k for k, v in verdict.items() if v in ("accepted", "accepted-own-getters", "f4")]
         accepted += len(ok)
         all_stats += [rec["stats"][k] for k in sorted(verdict)]
@@ -387,6 +399,13 @@ def histories(ctx, prop, plan):
     for key in ("events", "blocks", "validations", "delegations", "activations", "exits", "evictions", "housekeepingUpdates",
                 "nonzeroWithdrawals", "zeroWithdrawals", "reverts", "leaderGroupEmptied", "posStarts", "realCodeErrors"):
         ctx.cov[key] = sum(s[key] for s in all_stats)
+    by_mode = {}
+    for st in all_stats:
+        m = by_mode.setdefault(st["mode"], {"histories": 0, "events": 0, "activations": 0, "exits": 0, "nonzeroWithdrawals": 0})
+        m["histories"] += 1
+        for key in ("events", "activations", "exits", "nonzeroWithdrawals"):
+            m[key] += st[key]
+    ctx.cov["by_mode"] = by_mode
     kinds = {}
     for s in all_stats:
         for k, v in s["revertKinds"].items():
@@ -398,6 +417,39 @@ def histories(ctx, prop, plan):
             raise Infra("specification drift (%s): every observable of the property agrees with Staker.tla but an internal "
                         "projection / revert reason does not: %s" % (key, ctx.cov[key]))
     return all_stats
+
+
+# ------------------------------------------------------------------------------ model -> implementation replay
+def replay_behaviours(ctx, prop, traces):
+    """TLC generates behaviours of Staker.tla (MCStakerExport, simulation mode, successful operations only); each is
+    replayed on the real code by stakersim -mode replay and validated like a recorded history (every getter compared)."""
+    r = ctx.tlc(SUB, "MCStakerExport", cfg="MCStakerExport.cfg", workers=1, timeout=900, heap="4g", count=False,
+                simulate="num=%d" % traces, depth=60, label="behaviour export (simulation)")
+    if r.timeout or r.invariant or (r.error and "BEH" not in r.out):
+        raise Infra("behaviour export failed: %s\n%s" % (r.invariant or r.error or "timeout", r.out[-1500:]))
+    seen, behs = set(), []
+    for m in re.finditer(r'<<"BEH", (\d+), "(.*)">>', r.out):
+        ops = json.loads(json.loads('"' + m.group(2) + '"'))
+        key = json.dumps(ops)
+        if key not in seen:
+            seen.add(key)
+            behs.append({"mbp": 2, "ops": ops})          # InitMBP of MCStakerExport.cfg
+    if len(behs) < 2:
+        raise Infra("behaviour export produced %d behaviours\n%s" % (len(behs), r.out[-1500:]))
+    stats, accepted = [], 0
+    for k in range(0, len(behs), 300):
+        d = ctx.tmp("beh-%d" % k)
+        path = os.path.join(d, "behaviours.json")
+        json.dump(behs[k:k + 300], open(path, "w"))
+        rec = record(ctx, "mc", "replay", 0, 0, ctx.seed, "replay-%d" % k, extra=["-in", path])
+        hists, verdict = validate_recording(ctx, prop, rec, "replay-%d" % k)
+        accepted += sum(1 for v in verdict.values() if v in ("accepted", "accepted-own-getters", "f4"))
+        stats += [rec["stats"][i] for i in sorted(verdict)]
+    ctx.cov["behaviours_replayed_on_impl"] = accepted
+    ctx.cov["behaviours_exported"] = len(behs)
+    ctx.cov["traces_validated_against_impl"] += accepted
+    ctx.sample({"tlc_behaviour_replayed": behs[0]["ops"][:8]}, limit=8)
+    return stats
 
 
 # ------------------------------------------------------------------------------------------ binding demonstration
@@ -460,12 +512,15 @@ def replay(ctx, prop):
 ASSUMPTIONS = [
     "staking periods, cooldown and the fork block are multiples of the epoch length (as on every deployed network); "
     "housekeeping is invoked once per block through Staker.SyncPOS before any transaction of that block",
-    "the driver plays the Solidity wrapper staker.sol (credit before a payable native call, roll back on revert, debit what "
-    "a withdraw returned); the wrapper's own bytecode (staker.sol in the EVM, real transactions, packer, PoA->PoS at "
-    "genesis) is exercised by the on-chain sample (stakersim -mode chain), where revert reasons are not observable",
+    "in the Go-API histories the driver plays the Solidity wrapper staker.sol (credit before a payable native call, roll "
+    "back on revert, debit what a withdraw returned); the wrapper's bytecode, the native layer (authority rule, pause "
+    "switches, onlyDelegatorContract, checkStake), contract senders (revert on receive, re-entering withdrawStake), "
+    "multi-clause transactions, the PoA->PoS switch and a long-lived consensus instance importing every block are "
+    "exercised by the on-chain histories (stakersim -mode chain / chainpoa), where revert reasons are not observable",
     "stake amounts are multiples of the trace unit (1 000 000 / 25 000 000 VET) except in the preset with unit = 1 VET, "
     "where rounding of vet*multiplier/100 is covered for a few validators (TLC integers are 32 bit)",
     "non-revert errors of the Go code (counter underflow, failed ContractBalanceCheck) are not behaviours of the model: "
     "they are logged by the driver and rejected by the trace specification",
-    "exhaustive only inside the bounds of MCStaker_*.cfg; longer histories are sampled (seeded)",
+    "exhaustive only inside the bounds of MCStaker_*.cfg; longer histories are sampled (seeded); the model->implementation "
+    "replay uses behaviours sampled by TLC's simulation mode (successful operations only), not all behaviours",
 ]
